@@ -15,6 +15,13 @@ def main():
     out = sys.stdout
     sys.stdout = sys.stderr          # adapters must not pollute the protocol stream
     cache = {}
+    covdir = os.environ.get("VERIF_IMPLCOV_DIR")
+    if covdir:
+        try:
+            from lib import implcov
+            implcov.start()
+        except Exception:
+            covdir = None
     for line in sys.stdin:
         tasks = json.loads(line)
         res = []
@@ -34,6 +41,8 @@ def main():
                 res.append({"exc": type(e).__name__, "msg": str(e)[:300], "where": where})
         out.write(json.dumps(res) + "\n")
         out.flush()
+    if covdir:
+        implcov.dump(covdir)
 
 
 if __name__ == "__main__":
